@@ -11,6 +11,8 @@ import Driver.Acp
 import Driver.Rel
 import Driver.Schema
 import Driver.Restart
+import Driver.Conc
+import Driver.Repl
 
 partial def loop (h : IO.FS.Stream) (out : IO.FS.Stream) (f : List String → String) : IO Unit := do
   let line ← h.getLine
@@ -39,6 +41,8 @@ def main (args : List String) : IO UInt32 := do
   | ["rel"] => loopS stdin stdout Driver.Rel.step ({} : Driver.Rel.W); return 0
   | ["schema"] => loopS stdin stdout Driver.Schema.step ({} : Driver.Schema.W); return 0
   | ["restart"] => loopS stdin stdout Driver.Restart.step ({} : Driver.Restart.W); return 0
+  | ["conc"] => loopS stdin stdout Driver.Conc.step ({} : Driver.Conc.W); return 0
+  | ["repl"] => loopS stdin stdout Driver.Repl.step ({} : Driver.Repl.W); return 0
   | ["encr"] => loopS stdin stdout Driver.Encr.step ({} : Driver.Encr.W); return 0
   | ["events"] => loopS stdin stdout Driver.Events.step ({} : Driver.Events.St); return 0
   | ["mvcc"] => loopS stdin stdout Driver.Mvcc.step ({} : Defra.Mvcc.DB); return 0
